@@ -37,7 +37,8 @@ def main():
         shutil.rmtree(evd, ignore_errors=True)
     dest = os.path.join('/verif', 'refactor', rid)
     os.makedirs(dest, exist_ok=True)
-    shutil.copy(os.path.join(out, 'patch.diff'), os.path.join(dest, 'patch.diff'))
+    if os.path.abspath(os.path.join(out, 'patch.diff')) != os.path.abspath(os.path.join(dest, 'patch.diff')):
+        shutil.copy(os.path.join(out, 'patch.diff'), os.path.join(dest, 'patch.diff'))
     meta['check_results'] = res
     meta['false_alarms'] = sorted(p for p, a in res.items() if a['rc'] == 1)
     meta['undecided_in'] = sorted(p for p, a in res.items() if a['rc'] == 2)
